@@ -47,6 +47,14 @@ pub fn run(pool: &Pool, tier: &str, _kf: &Known, out: &mut Outcome, cap_s: f64) 
         Op::Batch { t: 0, lens: vec![h, h, h, h, h, h, h, h, 5] }, // rolls over into a second file
     ];
     let post = vec![Op::Append { t: 0, len: 2 }, Op::ReadNext { t: 0, ckpt: true }];
+    // second follow-up: an append of exactly the size of the failed batch's first entry, so
+    // that it ends where a stale second header of the failed batch would begin
+    let post_same = |op: &Op| -> Option<Vec<Op>> {
+        match op {
+            Op::Batch { lens, .. } if lens.len() >= 2 && lens[0] != 2 => Some(vec![Op::Append { t: 0, len: lens[0] }, Op::ReadNext { t: 0, ckpt: true }]),
+            _ => None,
+        }
+    };
     let tails: Vec<Vec<Op>> = vec![vec![Op::Drain { t: 0 }, Op::Drain { t: 1 }], vec![Op::Restart, Op::Drain { t: 0 }, Op::Drain { t: 1 }]];
     let mut jid = 1_000_000u64;
     let mut outcomes: HashSet<String> = HashSet::new();
@@ -135,6 +143,17 @@ pub fn run(pool: &Pool, tier: &str, _kf: &Known, out: &mut Outcome, cap_s: f64) 
                         o.extend(tail.iter().cloned());
                         jobs.push(job(jid, cfg, o, pl.clone(), false));
                         meta.push(pl.clone());
+                    }
+                    // single failures only: the same placements with the same-size follow-up
+                    if pl.len() == 1 {
+                        if let Some(ps) = post_same(op) {
+                            jid += 1;
+                            let mut o = base.clone();
+                            o.extend(ps);
+                            o.extend(tails[1].iter().cloned());
+                            jobs.push(job(jid, cfg, o, pl.clone(), false));
+                            meta.push(pl.clone());
+                        }
                     }
                 }
                 let results = pool.run(jobs.clone());
